@@ -410,6 +410,13 @@ impl<CharIter: Iterator<Item = char>> Lexer<CharIter> {
         }
     }
 
+    // a digit sequence that is empty or does not fit the integer type is a syntax error
+    fn parse_integer<T: std::str::FromStr>(&self, literal: &str) -> Result<T> {
+        literal
+            .parse::<T>()
+            .or_else(|_| located_error!(SyntaxError::UnrecognizedToken, Some(self.location)))
+    }
+
     fn number(&mut self) -> Result<Option<TokenData>> {
         match self.current.take() {
             Some(c) => {
@@ -437,8 +444,8 @@ impl<CharIter: Iterator<Item = char>> Lexer<CharIter> {
                                 self.advance(1);
                                 self.digital10(&mut denominator)?;
                                 break Ok(Some(TokenData::Primitive(Primitive::Rational(
-                                    number_literal.parse::<i32>().unwrap(),
-                                    match denominator.parse::<u32>().unwrap() {
+                                    self.parse_integer::<i32>(&number_literal)?,
+                                    match self.parse_integer::<u32>(&denominator)? {
                                         0 => {
                                             return located_error!(
                                                 SyntaxError::RationalDivideByZero,
@@ -452,13 +459,13 @@ impl<CharIter: Iterator<Item = char>> Lexer<CharIter> {
                             _ => {
                                 Self::test_delimiter(Some(self.location), *nc)?;
                                 break Ok(Some(TokenData::Primitive(Primitive::Integer(
-                                    number_literal.parse::<i32>().unwrap(),
+                                    self.parse_integer::<i32>(&number_literal)?,
                                 ))));
                             }
                         },
                         None => {
                             break Ok(Some(TokenData::Primitive(Primitive::Integer(
-                                number_literal.parse::<i32>().unwrap(),
+                                self.parse_integer::<i32>(&number_literal)?,
                             ))))
                         }
                     }
